@@ -6,7 +6,8 @@ Bounded exhaustive exploration of odxtools.variantmatcher.VariantMatcher:
     (odxmodel.emit_variants: ECU-VARIANT-PATTERNS / BASE-VARIANT-PATTERN) and loaded ONCE per family through the real
     loader; a candidate list is a Python list of the loaded EcuVariant / BaseVariant objects;
   * ALL candidate lists up to the family's length bound x ALL deterministic ECUs (every function from the list's
-    identification requests to {value 1, value 2, negative response, undecodable bytes}) x cache on/off;
+    identification requests to {value 1, value 2, negative response, undecodable bytes, empty reply}) x
+    {cache, no cache, cache with the replies handed over in one reused mutable buffer};
   * the matcher is a generator: every yielded request is a scheduling point answered by the ECU.  The ECU function is
     enumerated lazily (a request seen for the first time branches four ways; a deterministic ECU repeats its earlier
     answer), states are rebuilt by replay on a fresh VariantMatcher.  Every total ECU function is an extension of
@@ -335,7 +336,12 @@ def judge_run(fam: str, use_cache: bool, out: Outcome, keys: Sequence[str], mode
     if out.error is not None:
         exc = out.error.split(':')[0]
         # before any reply the failure cannot depend on layout / type / candidates' values: one key for all families
-        key = f"C14/raises/{exc}/before-first-reply/{mode}" if not out.trace else f"C14/raises/{fam}/{exc}/after-{out.after}"
+        if not out.trace:
+            key = f"C14/raises/{exc}/before-first-reply/{mode}"
+        elif out.after == "EMPTY":
+            key = f"C14/raises/{exc}/after-EMPTY"  # a reply of zero bytes reaches no decoder: independent of layout, type and mode
+        else:
+            key = f"C14/raises/{fam}/{exc}/after-{out.after}"
         probs.append((key, f"[{mode}] request loop raised {out.error} after requests {out.trace}"))
         return probs
     if use_cache:
@@ -519,16 +525,18 @@ def run(ctx: Ctx) -> None:
     ctx.bounds = {"families": {f.name: {"pool": len(f.pool), "max_list_length": f.maxlen, "lists": f.nlists(), "what": f.what} for f in fams},
                   "ecu_answer_alphabet": list(ANSWERS),
                   "modes": [m for m, _, _ in MODES], "reused_buffer_mode_families": sorted(f.name for f in fams if f.buffer_mode),
-                  "replies": {"V1/V2": "62 <did> <payload>", "NEG": "7F 22 31", "BAD": "62 <did high byte> (truncated)"}}
+                  "replies": {"V1/V2": "62 <did> <payload>", "NEG": "7F 22 31", "BAD": "62 <did high byte> (truncated)", "EMPTY": "(zero bytes)"}}
     ctx.rule = ("every candidate list of every family x every function from the list's identification requests to "
-                "{V1,V2,NEG,BAD} x {cache, no cache, cache + reused receive buffer}; non-trivial = distinct (family, mode, sequence of (request, answer), "
+                "{V1,V2,NEG,BAD,EMPTY} x {cache, no cache, cache + reused receive buffer}; non-trivial = distinct (family, mode, sequence of (request, answer), "
                 "verdict) behaviours with at least one request")
     ctx.assumptions = [
         "strict mode (odxtools.exceptions.strict_mode = True); evaluate() is called exactly once per yielded request",
         "a deterministic ECU is a function of (addressing mode, request bytes); findings that need an ECU answering the same "
         "bytes differently under physical and functional addressing carry the key suffix /addressing-sensitive-ecu",
         "undecodable reply = a truncated positive response that no response of the service can decode (a reply of the right "
-        "length with wrong constants is decoded with a warning by design -- DON'T-CARE, not generated); an empty reply is not generated",
+        "length with wrong constants is decoded with a warning by design -- DON'T-CARE, not generated)",
+        "EMPTY = a reply of zero bytes: a reply like any other (every response object here has parameters, so none decodes it -> "
+        "the parameter does not match; the matcher must not raise)",
         "expected values: decimal without leading zeros, repr of the float, hex for byte fields and 0x.. for DTCs in upper case and "
         "(types byteslc / dtclc) in lower case -- a hex text denotes bytes / a number, its letter case carries no meaning",
         "the tester may hand every reply to evaluate() in one mutable receive buffer that it overwrites when the next reply "
